@@ -67,8 +67,9 @@ CLAIMED = {
     'C19': {
         'text': "Proved in Lean for every input: every parse error of the model has a (line, column) that is the position of an offset inside the text "
                 "and shows the line iff the input is multi-line (c19_error_position_partial under ClassOK, plus the classifier-free variant and a "
-                "machine-checked counterexample showing ClassOK is needed). Newline-shift equivariance is checked on the implementation for k in {1,2,7} "
-                "on every generated query by the holds-predicate and is being proved (see DESIGN).",
+                "machine-checked counterexample showing ClassOK is needed); and for every k>0 the observation of newline^k ++ q is the observation of q "
+                "moved by k lines (c19_newline_shift, c19_shift_accept_iff, c19_holds: the very predicate evaluated on the implementation). The implementation is "
+                "compared with the model and checked against holdsC19 on every generated query and its k in {1,2,7} shifts.",
         'note': PARSER_NOTE,
         'technique': 'Lean 4 proof (line-bookkeeping invariant through every parse function) + differential correspondence on (q, newline-prefixed q)',
         'design_ref': 'DESIGN.md section 5 C19',
